@@ -236,6 +236,7 @@ func init() {
 			ruleOptFwd(w, r, v2, "v2", "Option", func(fn *ssa.Function) bool { return patchSide(fn) && !listModePatch(fn) || fn.Name() == "pathIdent" || fn.Name() == "ident" }, nil)
 			ruleKinds(w, r, v2)
 			ruleIdentUse(w, r, v2, "v2")
+			ruleIdentProv(w, r, v2, "v2")
 			r.Floor("R-EXPECT", 6)
 		}})
 }
